@@ -263,7 +263,7 @@ def run(ctx):
         for n in ast.walk(pl.loop):
             if isinstance(n, ast.Assign) and norm(n.targets[0]) == "newbfpath":
                 nb = n.value
-        ok = nb is not None and norm(nb) == f"os.path.join(self.outdir, self.cell_paths[lv], os.path.split({pl.var})[-1])"
+        ok = nb is not None and norm(nb) == f"os.path.join(self.outdir, self.cell_paths[lv], os.path.basename({pl.var}))"
         ctx.check(ok, f"{P}.P4", ck.site, "output file = <outdir>/<level dir>/<file name>: distinct per (level, file)",
                   f"newbfpath is {norm(nb) if nb is not None else None}", key="newbfpath")
     taskmaps.scatter_rule(ctx, P, ck, "box_index_map", "output",
